@@ -2,6 +2,7 @@
 * Unless explicitly stated otherwise all files in this repository are licensed under the Apache-2.0 License.
 * This product includes software developed at Datadog (https://www.datadoghq.com/). Copyright 2022 Datadog, Inc.
 **/
+use swc_common::Spanned;
 use swc_ecma_ast::*;
 use swc_ecma_visit::VisitMutWith;
 
@@ -28,11 +29,22 @@ impl AssignAddTransform {
             }
 
             AssignTarget::Simple(left_expr) => {
+                // `x += a + b` means `x + (a + b)`: a sum that is still a sum here (not instrumented
+                // itself) must keep its grouping, the printer does not parenthesise a right operand
+                let right = match &*assign.right {
+                    Expr::Bin(BinExpr {
+                        op: BinaryOp::Add, ..
+                    }) => Box::new(Expr::Paren(ParenExpr {
+                        span: assign.right.span(),
+                        expr: assign.right.clone(),
+                    })),
+                    _ => assign.right.clone(),
+                };
                 let binary = Expr::Bin(BinExpr {
                     span,
                     op: BinaryOp::Add,
                     left: left_expr.clone().into(),
-                    right: assign.right.clone(),
+                    right,
                 });
 
                 let result = BinaryAddTransform::to_dd_binary_expr(
